@@ -258,7 +258,6 @@ package annotations
 //@ func (*updater).findBackend#determined
 //@   props C06 C18
 //@   no-map-range
-//@   lemma first: result != nil ==> exists i int, k int :: 0 <= i && i < len(hosts) && 0 <= k && k < len(hosts[i].Paths) && result == &hosts[i].Paths[k].Backend
 //@   lemma own-namespace: result != nil ==> result.Namespace == namespace
 //@   loop 1 invariant none: 0 <= $idx(1) && $idx(1) <= len(hosts)
 //@ end
